@@ -219,6 +219,93 @@ def run_case(c: dict):
                     "odd differences", shape=shp, largest=mx, offset=list(placed), expected_offset=list(want))
         return out
 
+    if fn == "list_hetero":
+        # every function that takes a LIST of tensors: each output must be exactly what the call on that element alone
+        # returns (type, dtype, shape, values), outputs must not alias each other nor the inputs
+        target = c["target"]
+        shape0 = c["shape"]
+        elems, objs = [], []
+        for j, e in enumerate(c["elems"]):
+            if "same_as" in e:
+                objs.append(objs[e["same_as"]])
+                elems.append(elems[e["same_as"]])
+                continue
+            shp = e.get("shape", shape0)
+            x = _labels(shp, e.get("dtype", "float32"))
+            if e.get("dtype") == "int64" and e.get("large"):
+                x = x + 2 ** 25 + 1                      # not representable in float32
+            x = _layout(x, e.get("layout", "contiguous"))
+            objs.append(x.numpy() if e.get("numpy") else x)
+            elems.append(e)
+        keep = [o.copy() if isinstance(o, np.ndarray) else o.clone() for o in objs]
+        st = np.random.get_state()
+
+        def run(arg):
+            try:
+                if target == "crop_to_largest":
+                    return crop_to_largest(arg, pad_value=c.get("fill", 0)), None
+                f = getattr(T, target)
+                kw = {k: c[k] for k in ("offset", "contiguous", "sampler", "seed") if k in c}
+                return f(arg, tuple(c["crop"]), **kw), None
+            except (ValueError, TypeError, RuntimeError, IndexError, AssertionError) as e:
+                return None, e
+            finally:
+                np.random.set_state(st)
+
+        got, err = run(list(objs))
+        if c.get("expect") == "raises":
+            if err is None:
+                bad(f"prim/{target}/accepts-invalid", f"{target} accepts a list of tensors of different ranks / shapes")
+            return out
+        if err is not None:
+            bad(f"prim/{target}/list-raises", f"{target} raises {err_name(err)} on a heterogeneous list "
+                f"({[(e.get('dtype', 'float32'), 'numpy' if e.get('numpy') else 'torch') for e in elems]})", observed=repr(err)[:200])
+            return out
+        outs = got if isinstance(got, list) else [got]
+        if len(outs) != len(objs):
+            bad(f"prim/{target}/count", f"{target} returns {len(outs)} items for {len(objs)} inputs")
+            return out
+        mx = [max(int(o.shape[a]) for o in objs) for a in range(len(objs[0].shape))] if objs else []
+        for j, (o, x, e) in enumerate(zip(outs, objs, elems)):
+            if target == "crop_to_largest":
+                xn = x if isinstance(x, np.ndarray) else x.numpy()
+                ref = _window_ref(xn, [-((m - n) // 2) for m, n in zip(mx, xn.shape)], mx, np.asarray(c.get("fill", 0)).astype(xn.dtype))
+                single = ref if isinstance(x, np.ndarray) else torch.from_numpy(ref)
+            else:
+                single, e1 = run(x)
+                if e1 is not None:
+                    bad(f"prim/{target}/list-vs-single", f"{target} accepts element {j} inside a list but raises {err_name(e1)} on it alone")
+                    continue
+            what = None
+            if type(o) is not type(single):
+                what = f"type {type(o).__name__} instead of {type(single).__name__}"
+            elif str(o.dtype) != str(single.dtype):
+                what = f"dtype {o.dtype} instead of {single.dtype}"
+            elif tuple(o.shape) != tuple(single.shape):
+                what = f"shape {tuple(o.shape)} instead of {tuple(single.shape)}"
+            elif not _eq(o, single):
+                what = "different values"
+            if what:
+                bad(f"prim/{target}/list-vs-single", f"{target} on a heterogeneous list: output {j} is not what the call on that element "
+                    f"alone returns ({what}); list = {[(e_.get('dtype', 'float32'), 'numpy' if e_.get('numpy') else 'torch') for e_ in elems]}",
+                    element=j, observed=str(o.dtype), expected=str(single.dtype))
+                break
+        # aliasing: overwriting one output changes neither another output nor an input
+        snap = [o.copy() if isinstance(o, np.ndarray) else o.clone() for o in outs]
+        for j, o in enumerate(outs):
+            if isinstance(o, np.ndarray):
+                if o.size and o.flags.writeable:
+                    o[...] = 0
+            elif o.numel():
+                o.zero_()
+            for i2, (o2, s2) in enumerate(zip(outs, snap)):
+                if i2 > j and not _eq(o2, s2):
+                    bad(f"prim/{target}/outputs-alias", f"{target}: outputs {j} and {i2} of one call share memory")
+                    return out
+        if not all(_eq(x, k) for x, k in zip(objs, keep)):
+            bad(f"prim/{target}/aliases-input", f"{target}: an output shares memory with an input")
+        return out
+
     if fn == "bbox_twin":
         # direct/utils/bbox.py is a second copy of direct/data/bbox.py: same contract expected
         import importlib
@@ -375,6 +462,58 @@ def gen_cases(ctx: Ctx, deep: bool):
         shp = shape(rng.randint(1, 3), 1, 5)
         yield {"fn": "bbox_twin", "shape": shp, "bbox": [rng.randint(-3, n - 1) for n in shp] + [rng.randint(1, n + 3) for n in shp],
                "fill": rng.choice([0, 2])}
+    # ---- heterogeneous lists for every function that takes a list of tensors
+    dts = ["float32", "float64", "float16", "int64", "int16", "uint8", "complex64", "bool"]
+
+    def elem_list(n, allow_numpy):
+        es = []
+        for j in range(n):
+            r = rng.random()
+            if j and r < 0.2:
+                es.append({"same_as": rng.randrange(j)})            # the same tensor object twice
+                continue
+            e = {"dtype": rng.choice(dts), "layout": rng.choice(layouts[:4])}
+            if e["dtype"] == "int64" and rng.random() < 0.6:
+                e["large"] = True
+            if allow_numpy and rng.random() < 0.3 and e["dtype"] != "float16":
+                e["numpy"] = True
+            es.append(e)
+        return es
+
+    fixed_mix = [[{"dtype": "float32"}, {"dtype": "bool"}], [{"dtype": "float32"}, {"dtype": "int64", "large": True}],
+                 [{"dtype": "float32"}, {"dtype": "float64"}], [{"dtype": "float32"}, {"same_as": 0}, {"dtype": "uint8", "layout": "transposed"}],
+                 [{"dtype": "float32"}, {"dtype": "float32", "numpy": True}, {"dtype": "int64", "numpy": True}]]
+    for target in ("complex_center_crop", "complex_random_crop"):
+        for mix in fixed_mix:
+            c = {"fn": "list_hetero", "target": target, "shape": [2, 5, 4, 2], "crop": [3, 2], "elems": mix}
+            if target == "complex_random_crop":
+                c["seed"] = 11
+            yield c
+        for _ in range(25 if not big else 300):
+            rank = rng.choice([3, 4, 5])
+            shp = shape(rank - 1, 2, 5) + [2]
+            offset = rng.choice([0, 1])
+            ncrop = 2 if rank - 1 - offset >= 2 else 1
+            c = {"fn": "list_hetero", "target": target, "shape": shp, "offset": offset,
+                 "crop": [rng.randint(1, shp[offset + j]) for j in range(ncrop)], "elems": elem_list(rng.randint(2, 4), True)}
+            if rng.random() < 0.3 and not any(e.get("numpy") for e in c["elems"]):
+                c["contiguous"] = True
+            if target == "complex_random_crop":
+                c["seed"] = rng.randrange(2 ** 31)
+                if rng.random() < 0.4:
+                    c["sampler"] = "gaussian"
+            yield c
+        yield {"fn": "list_hetero", "target": target, "shape": [2, 5, 4, 2], "crop": [3, 2], "expect": "raises",
+               "elems": [{"dtype": "float32"}, {"dtype": "float32", "shape": [5, 4, 2]}]}                       # mixed ranks: rejected
+    for mix in fixed_mix:
+        yield {"fn": "list_hetero", "target": "crop_to_largest", "shape": [3, 2], "fill": 1,
+               "elems": [dict(e, shape=[3 - (j % 2), 2 + j]) if "same_as" not in e else e for j, e in enumerate(mix)]}
+    for _ in range(25 if not big else 300):
+        rank = rng.randint(1, 3)
+        es = [dict(e, shape=shape(rank, 1, 5)) if "same_as" not in e else e for e in elem_list(rng.randint(2, 4), True)]
+        yield {"fn": "list_hetero", "target": "crop_to_largest", "shape": shape(rank, 1, 5), "fill": rng.choice([0, 1, 3]), "elems": es}
+    yield {"fn": "list_hetero", "target": "crop_to_largest", "shape": [3, 2], "expect": "raises",
+           "elems": [{"dtype": "float32"}, {"dtype": "float32", "shape": [3]}]}                                   # mixed ranks: rejected
     # ---- crop_to_largest
     for _ in range(30 if not big else 300):
         rank = rng.randint(1, 3)
@@ -438,6 +577,12 @@ def _bucket(c):
         return b + "/" + c.get("path", "torch") + "/" + c.get("dtype", "float32")
     if c["fn"] == "crop_to_largest":
         return b + "/" + c.get("path", "torch")
+    if c["fn"] == "list_hetero":
+        kinds = {("numpy" if e.get("numpy") else "torch") for e in c["elems"] if "same_as" not in e}
+        return b + "/" + c["target"] + ("/numpy+torch" if len(kinds) > 1 else "/" + kinds.pop()) + \
+            ("/dup" if any("same_as" in e for e in c["elems"]) else "")
+    if c["fn"] == "bbox_twin":
+        return b
     return b + "/" + c.get("sampler", "default") + ("/seeded" if c.get("seed") is not None else "") + \
         ("/list" if c.get("shapes") else "") + ("/sigma" if "sigma" in c else "")
 
